@@ -183,6 +183,33 @@ def check_trees(rng, tier):
     for _ in range(20000 if tier == 'thorough' else 2500):
         one(gen_tree(rng, rng.randint(1, 4), wide), only_exact=True)
         cases += 1
+    # size does not matter: long chains, deep (redundant) nesting, thousands of characters - the three renderings still agree with the tree
+    def chain(n, op):
+        t = ('leaf', rng.choice(leaves))
+        for _ in range(n):
+            t = ('bin', op, t, ('leaf', rng.choice(leaves)))
+        return t
+
+    def right_chain(n, op):
+        t = ('leaf', rng.choice(leaves))
+        for _ in range(n):
+            t = ('bin', op, ('leaf', rng.choice(leaves)), t)
+        return t
+    big = [chain(70, '+'), chain(150, '-'), right_chain(80, '-'), chain(300, '+'), right_chain(120, '+')]
+    for t in big:
+        cases += 1
+        one(t)
+    for depth in (65, 100, 400):
+        cases += 1
+        text = '1+' + '(' * depth + '2' + ')' * depth + '*3'
+        r = p.parse(text)
+        if r != {'result': 7, 'error': None} and len(fails) < 5:
+            fails.append({'formula': text, 'detail': '%d redundant parentheses around a leaf: expected 7 got %r' % (depth, r)})
+    wide_sum = '+'.join(['(1+2*3)'] * 1500)          # about 10 500 characters
+    cases += 1
+    r = p.parse(wide_sum)
+    if r != {'result': 10500, 'error': None} and len(fails) < 5:
+        fails.append({'formula': wide_sum[:60] + '... (%d characters)' % len(wide_sum), 'detail': 'expected 10500 got %r' % (r,)})
     # leaves whose value is itself computed by evaluating a formula on the SAME parser while the outer formula is being parsed
     # (a cell handler that evaluates the cell's own formula, a function or variable handler doing the same)
     pn = new_parser()
@@ -273,6 +300,39 @@ def run_with_deadline(fn, seconds):
     finally:
         signal.setitimer(signal.ITIMER_REAL, 0)
         signal.signal(signal.SIGALRM, old)
+
+
+def sheet_case(sheet, text):
+    """ a listener resolves cells by evaluating their formulas on the same parser (depth-limited so that a cyclic sheet ends); '' or what
+        went wrong - the evaluation has to come back with a well-formed record within the line budget """
+    q = new_parser()
+    depth = [0]
+
+    def resolve(cell, setter):
+        f = sheet.get(cell.label)
+        if f is None:
+            return
+        if depth[0] >= 6:
+            setter(0)
+            return
+        depth[0] += 1
+        try:
+            setter(q.parse(f)['result'])
+        finally:
+            depth[0] -= 1
+    q.on('callCellValue', resolve)
+    try:
+        r = run_budgeted(lambda: q.parse(text), 600000)
+        return well_formed(r)
+    except Budget:
+        return 'does not terminate within the line budget'
+    except BaseException as ex:
+        return 'parse raised %s' % type(ex).__name__
+
+
+SHEETS = [({'A1': 'B1 + 1', 'B1': '#REF! + B1 + B1'}, 'A1'), ({'A1': 'B1 + 1', 'B1': '#REF! + B1 + B1'}, 'A1+A1'), ({'A1': '2*3', 'B1': 'A1+'}, 'B1+A1'),
+          ({'A1': 'A1+1'}, 'A1'), ({'A1': '"abc', 'B1': 'A1&"x"'}, 'B1&A1'), ({'A1': 'SUM(B1:B2)', 'B1': '((', 'B2': '1/0'}, 'A1*2+B1'),
+          ({'A1': 'B1', 'B1': 'C1', 'C1': 'A1 + ~'}, 'SUM(A1,B1,C1)')]
 
 
 LISTENER_EVENTS = (('callFunction', 'SUM(1)+SUM(2)'), ('callVariable', 'x+x'), ('callCellValue', 'A1+B2'), ('callRangeValue', 'SUM(A1:B2)+SUM(A1:B2)'))
@@ -576,6 +636,11 @@ def check_totality(rng, tier, names=None):
             if bad and len(fails) < 5:
                 fails.append({'formula': text, 'listener_case': [ev, act], 'host': 'listener of %s that does %s during the delivery' % (ev, act),
                               'detail': bad})
+    for si, (sheet, text) in enumerate(SHEETS):
+        cases += 1
+        bad = sheet_case(sheet, text)
+        if bad and len(fails) < 5:
+            fails.append({'formula': text, 'sheet_case': si, 'host': 'cells resolved by evaluating %r on the same parser' % (sheet,), 'detail': bad})
     for i in range(len(odd_exceptions())):
         for text in ('F()', 'F(1)+1', 'IFERROR(F(),7)', 'SUM(F(),1)'):
             cases += 1
@@ -587,6 +652,11 @@ def check_totality(rng, tier, names=None):
 
 def replay_formula(rp):
     """ generic replay of an e2e failure: formula (+ variable bindings by pool index) """
+    if rp.get('sheet_case') is not None:
+        sheet, text = SHEETS[rp['sheet_case']]
+        bad = sheet_case(sheet, text)
+        print('parse(%r) with cells %r resolved on the same parser: %s' % (text, sheet, bad or 'well-formed result'))
+        return bad or {'result': None, 'error': None}
     if rp.get('debug'):
         import contextlib
         import io
